@@ -14,5 +14,7 @@ abbrev R := Float
 @[inline] def Ratan2 (y x : R) : R := Float.atan2 y x
 @[inline] def RofNat (n : Nat) : R := n.toFloat
 def Rpi : R := 3.141592653589793
+/-- `==` on scalars (IEEE: NaN ≠ NaN) -/
+@[inline] def Req (a b : R) : Bool := a == b
 
 end ModelF
